@@ -1,6 +1,7 @@
 import ClaripyProofs.Lemmas.Solver.Independent
 import ClaripyProofs.Lemmas.Solver.Extrema
 import ClaripyProofs.Lemmas.Solver.CompositeHistory
+import ClaripyProofs.Lemmas.Solver.CompositeQuery
 /-!
 # C12 — SolverComposite answers like a monolithic solver
 
@@ -79,19 +80,19 @@ theorem C12_invariant_init (track : Bool) : CInv R RE E [] [] { c := { track := 
 /-- **`add` keeps the partition** (`CompositeFrontend._add`: the new constraints are split into independent groups; for each group
 the children owning one of its variables are found (`_solver_for_names`: the closure loop finds exactly those), merged, claimed
 copy-on-write, given the constraints and stored, `_store_child` re-pointing every variable of the child; a concretely false
-constraint sets `_unsat`).  `hC` is the specification of `combine` (the merged child) — see `C12_full`. -/
-theorem C12_add_keeps_partition (H : SolverHyps R RE E) (hC : CombineSpec R RE E) {U : List Con} {Us : List (List Con)} {s : CSt}
+constraint sets `_unsat`).  The merged child is what `combine` builds: `C12_combine_correct`. -/
+theorem C12_add_keeps_partition (H : SolverHyps R RE E) {U : List Con} {Us : List (List Con)} {s : CSt}
     (h : CInv R RE E U Us s) (cs : List Con) (hcs : ∀ c ∈ cs, R c) (hconc : ∀ c ∈ cs, c.vars = [] → c.conc ≠ none) :
     ∃ added Us' s', compAdd E cs s = (.ok added, s') ∧ CInv R RE E (U ++ cs) Us' s' :=
-  compAdd_spec H (childFoot H) hC h cs hcs hconc
+  compAdd_spec H (childFoot H) (combineSpec H (childFoot H)) h cs hcs hconc
 
 /-- the step for one independent group (`_add_dependent_constraints`): the children owning a variable of the group are replaced
 by one child holding their constraints and the new ones; the other children are not touched -/
-theorem C12_add_dependent_keeps_partition (H : SolverHyps R RE E) (hC : CombineSpec R RE E) {U : List Con}
+theorem C12_add_dependent_keeps_partition (H : SolverHyps R RE E) {U : List Con}
     {Us : List (List Con)} {s : CSt} (h : CInv R RE E U Us s) (names : List Var) (cs : List Con) (hcs : ∀ c ∈ cs, R c)
     (hcv : ∀ c ∈ cs, ∀ v ∈ c.vars, v ∈ names) (hne : cs ≠ []) (hvne : ∀ c ∈ cs, c.vars ≠ []) :
     ∃ added Us' s', addDependent E names cs s = (.ok added, s') ∧ (∀ c ∈ added, c ∈ cs) ∧ CInv R RE E (U ++ cs) Us' s' :=
-  addDependent_spec H (childFoot H) hC h names cs hcs hcv hne hvne
+  addDependent_spec H (childFoot H) (combineSpec H (childFoot H)) h names cs hcs hcv hne hvne
 
 /-- **`satisfiable()` answers for the whole constraint list** (no extra constraints): the unchecked children are asked one by one
 (`check_satisfiability` of the child class: cached verdict, trivial-constraint shortcut, backend); independent children have a
@@ -107,20 +108,91 @@ theorem C12_satisfiable_correct (H : SolverHyps R RE E) {U : List Con} {Us : Lis
 mention the child's variables only) -/
 theorem C12_child_footprint (H : SolverHyps R RE E) : ChildFoot R RE E := childFoot H
 
+/-- **`combine` delivers the merged child** (`ConstrainedFrontend.combine` + `ModelCacheMixin.combine`, called by
+`_solver_for_names` when the names are owned by several children `j :: rest`): a new child that satisfies the C11 invariant
+for the conjunction of the parts' constraints, knows exactly their variables, and whose cached models (the first
+`len(self._models)` products of one cached model per part, in whatever order `itertools.product` walks the sets) are all
+valid; nobody else changes.  This was the hypothesis `CombineSpec` of the earlier rounds. -/
+theorem C12_combine_correct (H : SolverHyps R RE E) : CombineSpec R RE E := combineSpec H (childFoot H)
+
+/-- the reason the cache part is right: cached models are dicts over the child's own variables (`KeysInv`, part of `CInv`), the
+children share no variable, so the product of one cached model per child agrees on each child's variables with the model
+taken from that child and satisfies every child's constraints -/
+theorem C12_combine_models_valid (H : SolverHyps R RE E) {U : List Con} {Us : List (List Con)} {s : CSt}
+    (h : CInv R RE E U Us s) (L : List Nat) (hnd : L.Nodup) (hin : ∀ j ∈ L, j ∈ s.c.solverList) (t : List PModel)
+    (ht : List.Forall₂ (fun m j => m ∈ (s.child j).models) t L) :
+    ∀ j ∈ L, Models (s.child j).constraints ((PModel.combine t).complete E.dflt) :=
+  combine_valid H.reg h L hnd hin t ht
+
 /-- **histories of `add` / `satisfiable()`** on one CompositeFrontend, from the empty one: every answer is the one the property
 statement demands for ALL the constraints added so far (or an honest give-up of a child's backend) -/
-theorem C12_composite_partial (H : SolverHyps R RE E) (hC : CombineSpec R RE E) (track : Bool) (hist : List Op)
+theorem C12_composite_partial (H : SolverHyps R RE E) (track : Bool) (hist : List Op)
     (hok : ∀ op ∈ hist, InScopeCP R op) :
     ∀ x ∈ runComp E { c := { track := track }, w := { fes := [] } } [] hist, JudgeOrGiveUp E x.1 x.2.1 x.2.2 :=
-  comp_hist H hC hist _ _ _ (cinv_init R RE E track) hok
+  comp_hist H hist _ _ _ (cinv_init R RE E track) hok
 
-/-- non-vacuity: the hypotheses hold in the consistent environment of C11 (there no two children can own names, so `combine`
-is never reached), for a history that constrains, asks, pins, asks, adds a concretely false constraint, asks -/
-example : SolverHyps cR cRE cEnv ∧ CombineSpec cR cRE cEnv ∧ ∀ op ∈ cCompHist, InScopeCP cR op :=
-  ⟨cHyps, cCombineSpec, cCompHist_ok⟩
+/-- non-vacuity: the hypotheses hold in the consistent environment of C11, for a history that constrains, asks, pins, asks,
+adds a concretely false constraint, asks -/
+example : SolverHyps cR cRE cEnv ∧ ∀ op ∈ cCompHist, InScopeCP cR op :=
+  ⟨cHyps, cCompHist_ok⟩
 
 example : ∀ x ∈ runComp cEnv { c := {}, w := { fes := [] } } [] cCompHist, JudgeOrGiveUp cEnv x.1 x.2.1 x.2.2 :=
-  C12_composite_partial cHyps cCombineSpec false cCompHist cCompHist_ok
+  C12_composite_partial cHyps false cCompHist cCompHist_ok
+
+/-! ### the other queries: the child owning the variables answers for everything -/
+
+/-- what `_solver_for_names(names)` hands back (`Merged`: one of the children, a blank one, or the `combine` of several), seen
+from everything the user added: every model of `U` is a model of the merged child, and — when every child is satisfiable, which
+`_ensure_sat` has just checked — every model of the merged child extends to a model of `U` without changing `names` or the
+child's variables (n-ary `C12_query_component`: `children_joint_model` over `C12_children_partition`) -/
+theorem C12_merged_child_vs_all (H : SolverHyps R RE E) {U : List Con} {Us Us1 : List (List Con)} {s s1 : CSt}
+    (h : CInv R RE E U Us s) (names : List Var) (m : Nat) (hm : Merged R RE E Us Us1 s s1 names m) (hu : s.c.unsat = false) :
+    (∀ a, Models U a → Models (Us1.getD m []) a) ∧
+    ((∀ j ∈ s.c.solverList, Satisfiable (Us.getD j [])) → Equi names U (Us1.getD m [])) :=
+  merged_equi H h names m hm hu
+
+/-- **`eval(e, n)` of the composite answers for ALL the constraints added** (registered symbolic `e`, no extra constraints), in any
+state satisfying the invariant: `_ensure_sat` (`C12_satisfiable_correct`), the merged solver of the variables of `e`
+(`C12_combine_correct`), the child's answer (`C11_child_step`), the transfer (`C12_merged_child_vs_all`); `_reabsorb_solver` does
+not raise (`C12_reabsorb_never_raises`).  A give-up of a child's backend is reported as such. -/
+theorem C12_eval_correct (H : SolverHyps R RE E) {U : List Con} {Us : List (List Con)} {s : CSt} (h : CInv R RE E U Us s)
+    (e : Exp) (n : Nat) (he : RE e) (hc : e.conc = none) (hn : 1 ≤ n) :
+    JudgeOrGiveUp E U (.eval e n []) (compStep E s (.eval e n [])).1 :=
+  compEval_judge H h e n he hc hn
+
+/-- **`is_true` / `is_false` of the composite** with any extra constraints: a `True` is right for all the constraints added -/
+theorem C12_is_true_correct (H : SolverHyps R RE E) {U : List Con} {Us : List (List Con)} {s : CSt} (h : CInv R RE E U Us s)
+    (c : Con) (extra : List Con) : JudgeOrGiveUp E U (.isTrue c extra) (compStep E s (.isTrue c extra)).1 :=
+  compTruth_judge H h true c extra
+
+theorem C12_is_false_correct (H : SolverHyps R RE E) {U : List Con} {Us : List (List Con)} {s : CSt} (h : CInv R RE E U Us s)
+    (c : Con) (extra : List Con) : JudgeOrGiveUp E U (.isFalse c extra) (compStep E s (.isFalse c extra)).1 :=
+  compTruth_judge H h false c extra
+
+/-- `_reabsorb_solver(m)` does not raise when every variable of `m` is a key of `_solvers` (`split()` of the temporary child
+succeeds; the least variable of every part is a key) -/
+theorem C12_reabsorb_never_raises (H : SolverHyps R RE E) {Us : List (List Con)} {s : CSt} (hw : TInvS R RE E Us s.w)
+    (hre : s.w.reuse = false) (m : Nat) (hm : m < s.w.fes.length)
+    (hkeys : ∀ v ∈ (s.child m).variables, ∃ t, alGet? s.c.solvers v = some t) : ∃ s', reabsorb E m s = (.ok (), s') :=
+  reabsorb_ok H hw hre m hm hkeys
+
+/-- **any history of `add` / `satisfiable()` followed by one query** (`eval` without extra constraints, `is_true` / `is_false`
+with any): the query is answered as the property statement demands for all the constraints added -/
+theorem C12_query_after_history_partial (H : SolverHyps R RE E) (track : Bool) (hist : List Op)
+    (hok : ∀ op ∈ hist, InScopeCP R op) (op : Op) (hop : InScopeCQ RE op) :
+    JudgeOrGiveUp E (usersAfterOps [] hist) op
+      (compStep E (compRun E { c := { track := track }, w := { fes := [] } } hist) op).1 := by
+  obtain ⟨Us', hinv⟩ := comp_hist_inv H hist _ [] [] (cinv_init R RE E track) hok
+  exact comp_query_step H hinv op hop
+
+/-- non-vacuity: constrain, ask, pin, then `eval` of the variable -/
+example : JudgeOrGiveUp cEnv (usersAfterOps [] [.add [cCon], .satisfiable [], .add [cEq]]) (.eval cExp 2 [])
+    (compStep cEnv (compRun cEnv { c := {}, w := { fes := [] } } [.add [cCon], .satisfiable [], .add [cEq]]) (.eval cExp 2 [])).1 :=
+  C12_query_after_history_partial cHyps false _
+    (fun op hop => cCompHist_ok op (by
+      simp only [List.mem_cons, List.not_mem_nil, or_false] at hop
+      rcases hop with rfl | rfl | rfl <;> simp [cCompHist]))
+    _ ⟨rfl, rfl, by decide, rfl⟩
 
 /-! ### `simplify` does NOT keep the partition (the code as written; answers are not affected)
 
@@ -158,14 +230,18 @@ theorem C12_simplify_breaks_partition :
 
 /-- **The full statement**: every history of public calls on a CompositeFrontend (hence, with the mixin layers of C11 on top, on
 a SolverComposite) is answered as the property statement demands for all the constraints added.  Proved: `C12_composite_partial`
-(add, satisfiable()), given `CombineSpec`.  Missing:
-  * `CombineSpec` itself — `combine` of ModelCacheMixin over ConstrainedFrontend builds the merged child when a constraint connects
-    several children: the constraint part is `add` on a blank copy (covered by `child_add_spec`), the cache part stores products of
-    the children's models, whose validity needs the cached models to be dicts (one entry per variable) with keys inside
-    `variables` (`KeysInv` is proved, key uniqueness is not an invariant of the C11 proof yet);
-  * the queries other than `satisfiable()` (eval, batch_eval, min, max, solution, is_true/is_false) and extra constraints: the
-    child's answer is right by `C11_child_step` and transfers by `C12_query_component` / `C12_optimum_component`; what is missing is
-    `_reabsorb_solver` (`split` / `update` of the temporary merged child);
+(whole histories of add / satisfiable()), with `combine` proved (`C12_combine_correct`, no hypothesis left), and
+`C12_query_after_history_partial` (such a history followed by ONE `eval` without extra constraints or `is_true` / `is_false` with
+any).  Missing:
+  * `_reabsorb_solver` RE-ESTABLISHES the invariant `CInv` (proved: it does not raise, `C12_reabsorb_never_raises`): `split()` of
+    the temporary merged child gives back the old children exactly when every child is connected (then `update` only adds cached
+    models over the child's variables — the parts carry no exhausted-markers, being blank copies), else the parts replace them;
+    needs the connectivity of children as an invariant or the replacement case of `cinv_install`.  Until then a query cannot be
+    followed by further calls in the theorems, and the value queries with EXTRA constraints are open (`_ensure_sat(extra)`
+    reabsorbs before the query);
+  * `batch_eval`, `min`, `max`, `solution`: the same proof as `C12_eval_correct` (the transfer `Equi` carries `Feasible`, hence
+    `IsOpt` and `FeasibleT`; `C12_optimum_component`) once the footprint of those child calls (`variables` unchanged — proved for
+    `eval` and `check_satisfiability` in `C12_child_footprint`) is proved, which `_reabsorb_solver` needs in order not to raise;
   * `simplify` (a child's `variables` may keep a variable its constraints lost: `ExactVars` fails, see design_notes/C12.md),
     `branch` / pickling of the composite (children shared copy-on-write between composites);
   * the mixins of class SolverComposite above CompositeFrontend, CompositedCacheMixin among them. -/
